@@ -423,10 +423,12 @@ def run_C20(ctx):
 
 # ---------------------------------------------------------------------------------------------
 # C05: hostile input to the backend request server (+ daemon part, see daemon_hostile_run)
-def hostile_server_run(ctx):
+def hostile_server_run(ctx, fdpos=False):
     cases = ctx.tlc_mc("MC_Hostile", "MC_Hostile_" + ctx.tier, workers=1)
     reps = 3 if ctx.tier == "quick" else 12
     allc = []
+    if fdpos:
+        allc.extend(dict(c) for c in ctx.hcases)
     for r in range(reps):
         for c in cases:
             allc.append(dict(dev=c["dev"], steps=c["steps"], adapter="direct" if r % 3 == 2 else "mutex"))
@@ -450,4 +452,82 @@ def run_C05(ctx):
         ASSUME_COMMON + ["reads outside the received message that do not end in a panic/abort are invisible to this technique (not claimed)",
                          "header-level oddities (REPLY flag, wrong fixed size) on requests the statement's rule list does not mention are judged only for panics, "
                          "invalid handler arguments and descriptor counts"],
+        viol)
+
+
+def run_C09(ctx):
+    if ctx.replay is not None:
+        eng = ctx.replay["engine"]
+        viol = {"server": lambda c: hostile_server_run(c, True), "client": lambda c: client_run(c, True),
+                "bereq": lambda c: bereq_run(c, hostile=True), "gpu": gpu_run}[eng](ctx)
+    else:
+        viol = (hostile_server_run(ctx, fdpos=True) + client_run(ctx, want_mutations=True)
+                + bereq_run(ctx, hostile=True) + gpu_run(ctx, hostile=True))
+    return ctx.finish("fault_enumeration",
+        "every connection of the hostile-input spaces of C05/C06 (valid, invalid, truncated, over-stuffed messages with 0..40 descriptors on "
+        "the header, on body segments, on requests/replies that take none, beyond the 32-descriptor limit) is torn down after its last "
+        "message (every message and every error path is a teardown point because each stimulus ends its own connection); the set of open "
+        "descriptors (fstat identity multiset from /proc/self/fd) before creating the endpoints and after dropping them is recorded and "
+        "TLC requires: nothing leaked, nothing foreign closed, each delivered descriptor is one that was sent and delivered once, lent "
+        "descriptors still open; distinct = (engine, code/op, variant, descriptors, outcome)",
+        ASSUME_COMMON + ["descriptors the application handler received by value are dropped by the recording handler (so they must be closed at teardown)",
+                         "the daemon-level part (ring kick/call/err descriptors) is covered by the C11/C14 engines, not here"],
+        viol)
+
+
+# ---------------------------------------------------------------------------------------------
+# C10: request/answer atomicity under concurrency
+def run_C10(ctx):
+    import glob
+    ns = (2,) if ctx.tier == "quick" else (2, 3)
+    cases = []
+    for cfgp in sorted(glob.glob(os.path.join(ROOT, "spec", "mc", "MC_Txn_*.cfg"))):
+        name = os.path.basename(cfgp)[:-4]
+        n = int(name.split("_")[2])
+        kinds = name.split("_")[3:]
+        if n not in ns and not (ctx.tier == "quick" and n == 3 and len(set(kinds)) == 1):
+            continue
+        scheds = ctx.tlc_mc("MC_Txn", name, workers=2)
+        for s_ in scheds:
+            k = s_["kinds"]
+            for ep in ("fe", "be", "gpu"):
+                if ep == "fe" and "ack" in k and "ff" in k:
+                    continue   # NEED_REPLY is a property of the shared endpoint: ack and fire-and-forget calls cannot mix
+                if ep == "be" and len(set(k)) != 1 or ep == "be" and "reply" in k:
+                    continue   # the proxy's requests are all acknowledged or all fire-and-forget
+                cases.append(dict(ep=ep, kinds=k, sched=s_["sched"]))
+    if ctx.tier == "quick" and len(cases) > 1500:
+        cases = cases[::len(cases) // 1500 + 1]
+    # uncontrolled multi-thread stress (hooks only record)
+    for ep, ks in (("fe", ["reply"] * 4), ("fe", ["reply", "ack", "reply", "ack", "ack", "reply"]), ("fe", ["reply", "ff", "ff", "reply"]),
+                   ("be", ["ack"] * 8), ("be", ["ff"] * 4), ("gpu", ["reply", "ff", "ack", "reply", "ff", "reply", "ack", "ff"])):
+        for r in range(3 if ctx.tier == "quick" else 20):
+            cases.append(dict(ep=ep, kinds=ks, sched=[], free=True, n=150 if ctx.tier == "quick" else 1000))
+    cases = replay_or(ctx, "txn", cases)
+    tr = ctx.harness("txn", cases, shards=8)
+    viol = ctx.tlc_tv("TV_Txn", tr, "txn", chunk_events=8000)
+    seen = set()
+    cur = None
+    for line in open(tr):
+        e = json.loads(line)
+        if e["ev"] == "reset":
+            cur = [e["ep"], tuple(e["kinds"])]
+            order = []
+        elif e["ev"] in ("sent", "done", "received"):
+            order.append((e["ev"], e["t"]))
+        elif e["ev"] == "end":
+            ctx.evaluations += 1
+            if len(order) < 40:
+                ctx.distinct.add((cur[0], cur[1], tuple(order)))
+    ctx.sample(tr, 2, skip=0)
+    ctx.exhaustive = True
+    return ctx.finish("model_checking",
+        "TxnAtomicity.tla (threads x endpoint lock x hold points x peer) is model-checked for every mix of reply/ack/fire-and-forget calls "
+        "with 2 (quick) and 3 (thorough) threads: Indivisible, OwnAnswer, no deadlock, termination under fairness. Every complete schedule "
+        "of the model (sequence of controller commands over the hold points) is replayed on real clones of Frontend, Backend proxy and "
+        "GpuBackend against a raw peer answering in arrival order with request-tagged answers; the recorded hold-point events are "
+        "validated by TLC (a `sent` event inside another caller's request/answer window is the violation). Plus uncontrolled stress with "
+        "4-8 threads whose hook-recorded event order is validated the same way. distinct = distinct (endpoint, kinds, observed event order)",
+        ASSUME_COMMON + ["a thread the model says must block is observed only through the absence of its `sent` event before the holder is released; "
+                         "a too short quiet period (3 ms) can hide a late arrival but never fabricate a violation"],
         viol)
